@@ -29,8 +29,8 @@ META = {
             "callback unless a new callback is registered, and that the owner-side fold yields count/count_all/size. The model is tied to "
             "counting_set.hpp by replaying the event history of every rank of real runs through the model's step function.",
     "note": "Trusted: Lean kernel + propext/Classical.choice/Quot.sound; hand-written model Cache.lean tied to the code on the explored runs only; "
-            "delivery of every packed message exactly once to the owner is C01's theorem (checked here on the logs, not proved); the INT32_MAX "
-            "overflow flush is modelled but cannot be exercised; std::hash of the key is the identity by construction of the harness key type.",
+            "delivery of every packed message exactly once to the owner is DERIVED from the communicator model (Props/ContainersComm: CSetComm.C15_count_after_barrier, product of Comm with one Cache state per rank) and checked on the logs; the INT32_MAX "
+            "overflow flush is exercised through the guarded hook counting_set::verif_cache_insert_n (insert_n_eq_preload relates it to n inserts); std::hash of the key is the identity by construction of the harness key type.",
 }
 
 S = 1 << 20            # count_cache_size / cache_size of the code
